@@ -55,8 +55,8 @@ CLAIMS["C22"] = {
 
 CLAIMS["C25"] = {
     "technique": _T + " (announce.rs shadowed into a shim crate with bit-mask sets): fully symbolic configuration + k symbolic sync results against a reference target predicate",
-    "text": "For every local node, every choice of preferred / synced / unsynced sets over 4 nodes, every replication factor and every sequence of up to 3 sync results (local node, unknown nodes and repeats included) the solver shows that the announcer reports success exactly when the reference target is reached (computed over distinct nodes), never counts or hands out the local node, reports progress over distinct nodes, and that timed_out reports success exactly then. Announcer only: the Fetcher is outside.",
-    "note": "Trusted: Kani/CBMC; the bit-mask container model; NodeId abstracted to a 1-byte id. Function bodies are those of /repo's announce.rs and sync.rs.",
+    "text": "For every local node, every choice of preferred / synced / unsynced sets over 4 nodes, every replication factor and every sequence of up to 3 sync results (local node, unknown nodes and repeats included) the solver shows that the announcer reports success exactly when the reference target is reached (computed over distinct nodes), never counts or hands out the local node, reports progress over distinct nodes, and that timed_out reports success exactly then. Fetcher (driven the documented way, 1 round quick / up to 3 thorough): next_node never returns the local node or a node that already has a result, fetch_complete / finish report success exactly when every preferred seed succeeded or the replica bound is reached.",
+    "note": "Trusted: Kani/CBMC; the bit-mask container and 6-slot queue models; NodeId abstracted to a 1-byte id; FetchResults/FetchResult/Address are models. Function bodies are those of /repo's announce.rs, fetch.rs and sync.rs.",
 }
 
 CLAIMS["C03"] = {
